@@ -47,9 +47,12 @@ def run_case(c):
             if not r["ok"]:
                 r.update(evaluations=n, case={"prop": "C12", "kind": "encode", "inputs": {"days": canon(d)}})
                 return r
-        for mask in list(range(-3, 300)) + [1 << 20, -255]:
+        for mask in list(range(-3, 300)) + [1 << 20, -255] + list(range(2, 255)):
             r = decd(mask)
             n += 1
+            if r["ok"] and r["outcome"]["k"] == "ret":
+                # a caller may edit the set it was given; a later decode of the same mask must not see that edit
+                bit_summary_to_days(mask).symmetric_difference_update({Days.MONDAY, Days.SATURDAY})
             if not r["ok"]:
                 r.update(evaluations=n, case={"prop": "C12", "kind": "decode", "inputs": {"mask": mask}})
                 return r
